@@ -191,6 +191,30 @@ theorem sphere_similarity (pi f R k r a : ℝ) (ha : 0 < a) (hR : 0 < R) :
           = r * r * r / (2 * R * (2 * R) * (2 * R) * 2) := by field_simp
       rw [e1, e2]
 
+/-- **sticky_hard_spheres_similarity**: the Percus-Yevick spectrum of sticky hard spheres is homogeneous of degree 3 under
+    `R → a R`, `k → k / a` (stickiness and fractional volume fixed), on both branches of the code (small-argument limit and general form) -/
+theorem sticky_hard_spheres_similarity (pi f R k a : ℝ) (tau : Option ℝ) (ha : 0 < a) :
+    shsFt pi f (a * R) tau (k / a) = a ^ 3 * shsFt pi f R tau k := by
+  have ha' : a ≠ 0 := ne_of_gt ha
+  simp only [shsFt, shsFtT, shsFtZero, Micro.cube, Micro.sq, l2, l3, l4]
+  have hX : k / a * (2 * (a * R)) / 2 = k * (2 * R) / 2 := by field_simp
+  rw [hX]
+  split
+  · ring
+  · ring
+
+/-- **unified_sticky_hard_spheres_similarity**: same homogeneity for the unified form (`radius = ¾ ℓ_p / (1 − f)`), Porod length
+    `ℓ_p → a ℓ_p`, polydispersity and fractional volume fixed -/
+theorem unified_sticky_hard_spheres_similarity (pi f lp K k a : ℝ) (ha : 0 < a) (hv : pi ≠ 0) (hf : 1 - f ≠ 0) (hl : lp ≠ 0) :
+    ushsFt pi f (a * lp) K (k / a) = a ^ 3 * ushsFt pi f lp K k := by
+  have ha' : a ≠ 0 := ne_of_gt ha
+  simp only [ushsFt, ushsFtCore, ushsRadius, shsFtZero, Micro.cube, Micro.sq, l2, l3, l4]
+  have hX : k / a * (2 * (3 / 4 * (a * lp) / (1 - f))) / 2 = k * (2 * (3 / 4 * lp / (1 - f))) / 2 := by field_simp
+  rw [hX]
+  split
+  · field_simp
+  · field_simp
+
 end micro
 
 /-! ### rough boundaries: the roughness enters through `k·σ` only -/
